@@ -1,2 +1,3 @@
+pub mod crash;
 pub mod w1;
 pub mod w2;
